@@ -183,5 +183,89 @@ def buildGo (decl : Nat → Decl) : List Tok → Nat → List Frame → Option P
 
 def build (decl : Nat → Decl) (toks : List Tok) : BuildResult := buildGo decl toks 0 [] none
 
+
+/-! ### leaves: which accessor the tree consults
+
+`reads` / `writes` of a leaf are `self.accessor().reads()` / `.writes()` (par_seq.rs l.290-300)
+— the accessor the *system* hands out. `System::accessor` (system.rs l.190-194) is, unless the
+system overrides it, `AccessorTy::try_new().expect("Missing implementation for `accessor`")`;
+`try_new` (l.12-15) "returns `Some` in case there is a default": always for static system data
+(`StaticAccessor<T>`, l.320-342, whose lists are `T::reads()` / `T::writes()`), never for `()` /
+`PhantomData` accessors, and whatever the author chose for a dynamic accessor type. The tree
+never calls `try_new` itself. -/
+
+/-- what the crate can learn about a leaf system -/
+structure LeafSpec where
+  /-- `<Accessor>::try_new()`: the default accessor of the system data's accessor type -/
+  tryNew : Option Decl
+  /-- `System::accessor` overridden: the accessor this instance hands out -/
+  own : Option Decl
+  /-- resources the leaf's `setup` inserts when they are absent, in order (user code:
+  `DefaultProvider` of `Read` / `Write`, or whatever a dynamic system data's `setup` does) -/
+  creates : List ResId
+
+/-- `self.accessor()`; `none` = panic "Missing implementation for `accessor`" -/
+def LeafSpec.accessor (l : LeafSpec) : Option Decl :=
+  match l.own with
+  | some d => some d
+  | none => l.tryNew
+
+/-- the declaration the tree sees for leaf `s`. For a leaf without any accessor every method of
+the tree panics in `System::accessor`; such leaves are excluded (`Usable`), the empty
+declaration here is never consulted for them. -/
+def declOf (spec : Nat → LeafSpec) (s : Nat) : Decl :=
+  match (spec s).accessor with
+  | some d => d
+  | none => ⟨[], [], 0⟩
+
+def Usable (spec : Nat → LeafSpec) (t : PS) : Prop := ∀ x, x ∈ t.leaves → (spec x).accessor ≠ none
+
+/-! ### `ParSeq` and repeated `setup`
+
+`ParSeq { run, pool }` (l.205-208) has no field besides the tree and the pool handle
+(`P: Borrow<ThreadPool>`: `&ThreadPool`, `Arc<ThreadPool>`, ..): `ParSeq::setup` (l.224-226) is
+`self.run.setup(world)` and `RunNow::setup for ParSeq` (l.247-249) is
+`RunWithPool::setup(&mut self.run, world)` — the same walk, on every call, whatever happened
+before and whichever world is handed in. A leaf's `setup` is `T::setup(self, world)` (l.282-284),
+the system's own (possibly overridden) `System::setup`. -/
+
+/-- a leaf's setup on a world given as the list of present ids: insert what is absent -/
+def createAbsent : List ResId → List ResId → List ResId
+  | w, [] => w
+  | w, r :: rs => createAbsent (if w.contains r then w else w ++ [r]) rs
+
+/-- `RunWithPool::setup` on the world: head, then tail (l.308-311, 370-373) -/
+def setupWorldAcc (creates : Nat → List ResId) : PS → List ResId → List ResId
+  | .nil, w => w
+  | .leaf s, w => createAbsent w (creates s)
+  | .par h t, w => setupWorldAcc creates t (setupWorldAcc creates h w)
+  | .seq h t, w => setupWorldAcc creates t (setupWorldAcc creates h w)
+
+/-- the two entry points -/
+inductive Via
+  | inherent   -- `ParSeq::setup`
+  | runNow     -- `<ParSeq as RunNow>::setup`
+deriving Repr, DecidableEq
+
+/-- `ParSeq<P, T>` as far as `setup` / `dispatch` can tell: the tree -/
+structure Disp where
+  run : PS
+deriving Repr
+
+/-- what one `setup` call does: the dispatcher afterwards (unchanged), the leaf hooks in call
+order, the world afterwards -/
+def Disp.setup (d : Disp) (_via : Via) (creates : Nat → List ResId) (w : List ResId) :
+    Disp × List Nat × List ResId :=
+  (d, setupOrder d.run, setupWorldAcc creates d.run w)
+
+/-- a history of setup calls, each with its entry point and the world it is handed; the
+observation (hooks, world afterwards) of every call -/
+def Disp.setups (d : Disp) (creates : Nat → List ResId) :
+    List (Via × List ResId) → List (List Nat × List ResId)
+  | [] => []
+  | (v, w) :: rest =>
+    let r := d.setup v creates w
+    (r.2.1, r.2.2) :: Disp.setups r.1 creates rest
+
 end PS
 end Shred
